@@ -112,6 +112,38 @@ def gen_hist(rng, comment=False, max_steps=7):
     return case
 
 
+def gen_hist2(rng, max_steps=8):
+    """2-3 block objects (TextBlock / Comment) that are handed to one another (append(other), other's lines,
+    TextBlock(other), +) between ordinary in-place operations; after every step ALL objects are observed"""
+    nobj = rng.randint(2, 3)
+    objects = []
+    for _ in range(nobj):
+        o = {'content': gen_content(rng, 2), 'comment': rng.random() < 0.25}
+        if not o['comment'] and rng.random() < 0.3:
+            o['header'] = gen_content(rng, 4)
+        objects.append(o)
+    steps = []
+    for _ in range(rng.randint(2, max_steps)):
+        o, j = rng.randrange(nobj), rng.randrange(nobj)
+        k = rng.choice(['append_ref', 'iadd_ref', 'add_ref', 'new_from', 'append_lines_of', 'append', 'trim', 'indent', 'setlines', 'obs'])
+        st = {'k': k, 'o': o}
+        if k in ('append_ref', 'iadd_ref', 'add_ref', 'append_lines_of'):
+            st['j'] = j
+        elif k == 'new_from':
+            st['j'] = j
+            st['comment'] = rng.random() < 0.3
+        elif k == 'append':
+            st['c'] = gen_content(rng, 3)
+        elif k == 'trim':
+            st['end_only'] = rng.random() < 0.5
+        elif k == 'setlines':
+            st['ls'] = [gen_line(rng) for _ in range(rng.randint(0, 3))]
+        elif k == 'indent':
+            pass          # the stored indenter (a Comment: the // indenter, a plain block: the default)
+        steps.append(st)
+    return {'op': 'tb.hist2', 'objects': objects, 'steps': steps}
+
+
 class _Obj:
     def __init__(self, s):
         self.s = s
@@ -260,6 +292,39 @@ def run_text_op(case):
             elif k == 'pour':
                 extra = list(TextBlock([t]).lines) if st.get('in_list') else list(TextBlock(t).lines)
             out.append({'lines': list(t.lines), 'str': str(t), 'extra': extra})
+        return out
+    if op == 'tb.hist2':
+        objs = []
+        for o in case['objects']:
+            if o.get('comment'):
+                objs.append(Comment(to_py(o['content'])))
+            else:
+                objs.append(TextBlock(to_py(o['content']), header=to_py(o['header']) if 'header' in o else None))
+        out = []
+        for st in case['steps']:
+            k, i = st['k'], st['o']
+            extra = None
+            if k == 'append_ref':
+                objs[i].append(objs[st['j']])
+            elif k == 'iadd_ref':
+                x = objs[i]
+                x += objs[st['j']]
+                objs[i] = x
+            elif k == 'add_ref':
+                extra = list((objs[i] + objs[st['j']]).lines)
+            elif k == 'new_from':
+                objs[i] = Comment(objs[st['j']]) if st.get('comment') else TextBlock(objs[st['j']])
+            elif k == 'append_lines_of':
+                objs[i].append(objs[st['j']].lines)
+            elif k == 'append':
+                objs[i].append(to_py(st['c']))
+            elif k == 'trim':
+                objs[i].trim(st.get('end_only', False))
+            elif k == 'indent':
+                objs[i].indent()
+            elif k == 'setlines':
+                objs[i].lines = list(st['ls'])
+            out.append({'objs': [{'lines': list(o.lines), 'str': str(o)} for o in objs], 'extra': extra})
         return out
     if op == 'ind.to_list':
         return to_indentizer(case['ind']).to_list(to_py(case['content']))
